@@ -33,6 +33,7 @@ def c01(tier: str) -> list[dict[str, Any]]:
         plan("G1 reruns of failures only: a second worker meets a setup test that is still running", trav.menu("G1", params={"max_tries": "2", "rerun_status": "fail error"}, label="G1-tries2-rerun"), m, K=1, statuses=["PASS"], pool_fixed=DEEP),
         plan("G9 two leaves, the shared setup ends with a warning", trav.menu("G9", label="G9-warn"), m, K=1, statuses=["PASS", "WARN"], max_nonpass=1, pool_fixed=DEEP),
         plan("G9 two leaves, reuse scope narrowed to own+shared, 2 workers", trav.menu("G9", params={"pool_scope": "own shared"}, label="G9-ownshared"), m, K=1, statuses=["PASS"], pool_fixed={"install": ["shared"]}),
+        plan("G8b a removable state with a lazily expanded dependant of another worker", trav.menu("G8b"), m, K=1, statuses=["PASS"], pool_fixed=DEEP),
     ]
     if tier == "thorough":
         out += [
@@ -56,6 +57,8 @@ def c02(tier: str) -> list[dict[str, Any]]:
         plan("G3 two leaves, one failure", trav.menu("G3"), m, K=1, statuses=["PASS", "ERROR"], max_nonpass=1, pool_fixed=DEEP),
         plan("G5 worker whose restrictions exclude the test", trav.menu("G5"), m, K=1, statuses=["PASS", "FAIL"], max_nonpass=1),
         plan("G1 dry run", trav.menu("G1", params={"dry_run": "yes"}, label="G1-dry"), m, K=1, statuses=["PASS"]),
+        plan("G9 two leaves, reuse scope narrowed to own+shared, 1 and 2 workers", trav.menu("G9", params={"pool_scope": "own shared"}, label="G9-ownshared"), m, K=1, statuses=["PASS", "FAIL"], max_nonpass=1, pool_fixed={"install": ["shared"]}),
+        plan("G9 narrowed scope, 1 worker", trav.menu("G9", nets="net1", params={"pool_scope": "own shared"}, label="G9x1-ownshared"), m, K=1, statuses=["PASS"], pool_fixed={"install": ["shared"]}),
         plan("G1 1 worker, no result is ever reported", trav.menu("G1x1", label="G1x1-noresult"), m, K=1, statuses=["NONE"], max_nonpass=99, pool_fixed=DEEP),
         plan("G1 2 workers, no result is ever reported, retries", trav.menu("G1", params={"max_tries": "2"}, label="G1-noresult"), m, K=1, statuses=["NONE"], max_nonpass=99, pool_fixed=DEEP),
         plan("virtual time: tests may hang past their timeout, explicit concurrency limit", trav.menu("G1", params={"test_timeout": "1", "max_tries": "2", "max_concurrent_tries": "1", "stop_status": "pass"}, label="G1-overrun-mct1"), m, timed=True, overrun=5.0, statuses=["PASS"], pool_fixed=DEEP,
@@ -108,6 +111,7 @@ def c04(tier: str) -> list[dict[str, Any]]:
         plan("G1 retries with explicit max_concurrent_tries=0 (serial)", trav.menu("G1", params={"max_tries": "2", "max_concurrent_tries": "0", "stop_status": "pass"}, label="G1-mct0"), m, K=1, statuses=["PASS", "FAIL"], max_nonpass=1, pool_fixed={"install": ["shared"]}),
         plan("virtual time: G1 2 workers, durations symbolic below test_timeout=1 (creation and chain)", trav.menu("G1", params={"test_timeout": "1"}, label="G1-timed"), m + [M.c03], timed=True, statuses=["PASS"],
              bounds={"time": "every execution lasts a symbolic real duration in (0, test_timeout); back-off sleeps as computed by the code; event order decided by the solver, long executions first"}),
+        plan("virtual time: G1 2 workers, three tries one at a time (a failing setup occupies its test for all tries)", trav.menu("G1", params={"test_timeout": "1", "max_tries": "3", "max_concurrent_tries": "1", "stop_status": "pass"}, label="G1-timed-tries3-mct1"), m, timed=True, statuses=["FAIL", "PASS"], max_nonpass=2, pool_fixed={"install": ["shared"], "customize": ["shared"]}),
         plan("virtual time: G1 2 workers, max_tries=0 (one try, as max_tries=1)", trav.menu("G1", params={"test_timeout": "1", "max_tries": "0"}, label="G1-timed-tries0"), m + [M.c03], timed=True, statuses=["PASS"], pool_fixed={"install": ["shared"], "customize": ["shared"]}),
         plan("virtual time: G1 2 workers, setup present (2 executions)", trav.menu("G1", params={"test_timeout": "1"}, label="G1-timed-short"), m + [M.c03], timed=True, statuses=["PASS"], pool_fixed={"install": ["shared"], "customize": ["shared"]}),
     ]
@@ -115,6 +119,7 @@ def c04(tier: str) -> list[dict[str, Any]]:
         out += [
             plan("virtual time: G2 2 workers", trav.menu("G2", params={"test_timeout": "1"}, label="G2-timed"), m + [M.c03], timed=True, statuses=["PASS"]),
             plan("virtual time: G1 3 workers", trav.menu("G1x3", params={"test_timeout": "1"}, label="G1x3-timed"), m + [M.c03], timed=True, statuses=["PASS"]),
+            plan("virtual time: G2 3 workers (an idle worker between two occupied tests of different budgets)", trav.menu("G2x3", params={"test_timeout": "1"}, label="G2x3-timed"), m + [M.c03], timed=True, statuses=["PASS"], pool_fixed={"image1_vm2:install": ["shared"]}),
             plan("virtual time: G1 2 workers max_tries=2", trav.menu("G1", params={"test_timeout": "1", "max_tries": "2", "stop_status": "pass"}, label="G1-timed-tries2"), m, timed=True, statuses=["PASS", "FAIL"], max_nonpass=1),
             plan("G2 3 workers K=2", trav.menu("G2x3"), m, K=2, statuses=["PASS", "FAIL"], max_nonpass=1),
             plan("G2 max_concurrent_tries=1 with max_tries=3", trav.menu("G2", params={"max_tries": "3", "max_concurrent_tries": "1"}, label="G2-mct1"), m, K=1, statuses=["PASS", "FAIL"], max_nonpass=2),
@@ -167,6 +172,7 @@ def c05(tier: str) -> list[dict[str, Any]]:
         plan("G3 eager, a node saving a removable image state and a reusable vm state", trav.menu("G3", lazy=False, label="G3-mixed-marks"), m, K=1, statuses=["PASS"], pool_fixed=virt, setup=_extra_vm_state),
         plan("G7l eager, removal mark on one image, retried dependant", trav.menu("G7l", lazy=False, params={"max_tries": "2"}, label="G7l-image-mark"), m, K=1, statuses=["PASS"], pool_fixed={**virt, "connect": ["shared"]}, setup=_image_mark),
         plan("G7l eager, removal mode fa, retried dependant", trav.menu("G7l", lazy=False, params={"max_tries": "2"}, label="G7l-fa-mark"), m, K=1, statuses=["PASS"], pool_fixed={**virt, "connect": ["shared"]}, setup=_abort_mark),
+        plan("G4i two dependants of a removable state, retried", trav.menu("G4i", params={"max_tries": "2"}, label="G4i-tries2"), m, K=1, statuses=["PASS"], pool_fixed={**virt, "connect": ["shared"]}),
         plan("G7 removable state with a retried dependant, two remote workers of one cluster", trav.menu("G7", params={"max_tries": "2"}, label="G7-tries2"), m, K=1, statuses=["PASS"], pool_fixed={**virt, "connect": ["shared"]}),
     ]
     if tier == "thorough":
